@@ -9,6 +9,8 @@ WHICH float operation is applied to WHICH operands, which is what the property c
 import Anko.Model.BinOp
 import Anko.Gen.Cache
 import Anko.Gen.Operators
+import Anko.Gen.ToXFlow
+import Anko.Props.ToXFlowTable
 
 namespace Anko.C05
 open Anko
@@ -414,5 +416,13 @@ theorem operator_arms_are_the_modelled_ones :
 open Anko.Gen.Cache in
 example : cacheGuard 4095 ∧ cacheGuard (-1) ∧ ¬ cacheGuard 4096 ∧ ¬ cacheGuard (-2) := by decide
 example : isNumeric (.int 3) = true ∧ hasFloat (.int 3) (.float 0) = true := by decide
+
+/-! ### The conversions of the numeric tower in the source (regenerated: Gen/ToXFlow)
+
+Every leaf statement of toString, toBool / tryToBool, toFloat64 / tryToFloat64, toInt64 / tryToInt64, toInt / tryToInt, numToString, isIntKind,
+precedenceOfKinds, float64Value, sliceOfArray and the operator dispatcher, with the conditions it stands under, is the one written down in
+Props/ToXFlowTable next to Model/Num and Model/Ops (toInt64V, toFloat64V, numeral parsing of strings, the kind that decides `+`). Any edit of these functions - also a harmless one - breaks this obligation by name; the check then
+searches model and implementation for a failing input (DESIGN.md 13.3). -/
+theorem tower_conversions_are_the_modelled_ones : Gen.ToXFlow.leaves = Tables.toXFlow := by decide +kernel
 
 end Anko.C05
